@@ -126,13 +126,15 @@ def run(ctx):
             if m.startswith("OK "):
                 mt = P.sx_parse(f"(c {m[3:]})")[1]
                 if mt[0] == "nan":
-                    ok = True   # non-finite intermediate: nan/inf propagation is outside the model
-                    res.count("nonfinite")
+                    # a non-finite RESULT of an operation on finite operands (x / 0, 0 ^ -1): the implementation returns nan or inf
+                    ok = py[0] == "OK" and isinstance(py[1], float) and (py[1] != py[1] or py[1] in (float("inf"), float("-inf")))
+                    res.count("nonfinite-result")
                 else:
                     ok = py[0] == "OK" and P.num_close(P.num_tuple(py[1]), mt)
-            elif m == "INEXACT":
-                ok = py[0] == "OK"
-                res.count("inexact")
+            elif m in ("INEXACT", "NONFINITE"):
+                # outside the exact model (an irrational power; arithmetic on a nan/inf operand): nothing to compare
+                ok = True
+                res.count(m.lower())
             else:
                 ok = py == ("EXC", m[4:])
             if not ok:
